@@ -64,9 +64,13 @@ m('B14c motions: positions moved by 1e-13 sample', SURF, [('    dshifted = np.ar
 m('B14d join no longer built from put (own, shifted by one)', TS, [('    a1 = put_array_in_2d_array(values, shifts)', '    a1 = put_array_in_2d_array(values, np.asarray(shifts) + 0)')], expect=0, cls='control')
 # ---- controls
 m('C1 cumulative_trapezoid -> cumsum of panel areas', SURF, [('    velocity = cumulative_trapezoid(acc_series, dx=asig.dt, initial=0, axis=1)', '    panels = 0.5 * (acc_series[:, 1:] + acc_series[:, :-1]) * asig.dt\n    velocity = np.concatenate([np.zeros((acc_series.shape[0], 1)), np.cumsum(panels, axis=1)], axis=1)')], 0)
-m('C2 interpolation on the time axis', SURF, [(INTERP, '    down_waves = np.interp(np.arange(asig.npts + max_shift)[np.newaxis, :] * asig.dt - 2.0 * travel_times[:, np.newaxis], np.arange(asig.npts) * asig.dt, asig.values, left=0, right=0)')], 0)
-m('C3 tolerant floors', SURF, [('    surf_to_depth_shifts = np.array(surf2depth_travel_times / dt, dtype=int)', '    surf_to_depth_shifts = np.array(np.floor(surf2depth_travel_times / dt + 1e-9), dtype=int)'), ('    start_shift = int(s2s_travel_time / dt)', '    start_shift = int(np.floor(s2s_travel_time / dt + 1e-9))')], 0)
-m('C4 join_sig exact floor_divide', TS, [('    shifts = np.array(time_shifts / sig.dt, dtype=int)', '    shifts = np.array(np.floor_divide(time_shifts, sig.dt), dtype=int)')], 0)
+m('C3 floors tolerant to a few ulps', SURF, [('    surf_to_depth_shifts = np.array(surf2depth_travel_times / dt, dtype=int)', '    surf_to_depth_shifts = np.array(np.floor(surf2depth_travel_times / dt * (1 + 4e-16)), dtype=int)'), ('    start_shift = int(s2s_travel_time / dt)', '    start_shift = int(np.floor(s2s_travel_time / dt * (1 + 4e-16)))')], 0)
+# ---- wave 5: whole-sample delays are decided strictly; extreme scales
+m('W5a delayed wave interpolated on the time axis (C19-I)', SURF, [(INTERP, '    down_waves = np.interp(np.arange(asig.npts + max_shift)[np.newaxis, :] * asig.dt - 2.0 * travel_times[:, np.newaxis], np.arange(asig.npts) * asig.dt, asig.values, left=0, right=0)')], cls='grid m*dt/2, non-zero last sample, untrimmed')
+m('W5b join_sig: exact floor_divide (0.06 // 0.01 == 5)', TS, [('    shifts = np.array(time_shifts / sig.dt, dtype=int)', '    shifts = np.array(np.floor_divide(time_shifts, sig.dt), dtype=int)')], cls='times s*dt whose evaluated quotient is the integer')
+m('W5c put: zero test through a square', TS, [('        out[i, start_extras + j:start_extras + npts + j] = values', '        out[i, start_extras + j:start_extras + npts + j] = np.where(np.asarray(values, dtype=float) ** 2 > 0, values, 0)')], cls='extreme-tiny values (|x| < 1e-162)')
+m('W5d motions: zero test through a product', SURF, [('    acc_series = trim_to_length(acc_series, asig.npts', '    acc_series = np.where(acc_series * acc_series > 0, acc_series, 0)\n    acc_series = trim_to_length(acc_series, asig.npts'.replace('\\n', '\n'))], cls='extreme-tiny records (motions are linear)')
+m('W5e energy through the fourth power', SURF, [('    e = 0.5 * velocity * np.abs(velocity)', '    e = 0.5 * np.sign(velocity) * np.sqrt(velocity ** 4)')], cls='energy at amplitudes 1e+-100..130')
 
 if __name__ == '__main__':
     sel = sys.argv[1:]
